@@ -826,14 +826,24 @@ def live_use(ctx, rng, pool, e, use, reqs, metas):
         kk = len(firsts)
 
         def build():
+            # one Mapping object, asked between its edits: after the forward half (no mirrors yet) it is the plain composition
             mp = Mapping()
-            stages = []
             for idx, x in enumerate(members):
                 if idx < kk:
                     mp.append_map(x.obj)
                 else:
                     mp.append_map(x.obj, 2 * kk - 1 - idx)
-                stages.append(None)
+                if idx == kk - 1:
+                    half = [(x2.meta["ranges"], x2.meta["inverted"]) for x2 in firsts]
+                    for assoc in (-1, 1):
+                        for pos in range(span(*half[0]) + 1):
+                            got, exp = mp.map(pos, assoc), compose(half, pos, assoc)
+                            ctx.count("live_mapping_asked_between_edits")
+                            if got != exp:
+                                ctx.violation("mapping-composition", "Mapping.map is not the left-to-right composition",
+                                              replay(maps=[list(h) for h in half], pos=pos, assoc=assoc, got=got, expected=exp,
+                                                     histories=[list(x2.log) for x2 in firsts]))
+                                return mp
             return mp
         st, mp = outcome(build)
         for x in members:
